@@ -404,7 +404,7 @@ theorem ref_content (h : Inv env f) (T : Ty) (v : Val) (b' : Builder)
     obtain ⟨xs, rs, hb, hrt⟩ := h.enc T v _ b' hwb hd he
     subst hb
     rw [RefOK, ofCell_app_empty]
-    obtain ⟨s', hs', _⟩ := hrt {} rfl (Or.inr ⟨rfl, rfl⟩)
+    obtain ⟨s', hs', _⟩ := hrt {} rfl (Or.inr ⟨rfl, rfl, rfl⟩)
     exact ⟨rfl, ⟨s', hs'⟩, fun hl => by cases hl⟩
   cases f with
   | zero => simp [inDom] at hd
@@ -978,6 +978,100 @@ def dictPay (env : Env) (f : Nat) (t : Ty) (x : Val) : List Bool × List Cell :=
   | .ok vb => (vb.bits, vb.refs)
   | _ => ([], [])
 
+theorem foldl_addRef_ok : ∀ (refs : List Cell) (b b' : Builder),
+    refs.foldlM (fun b r => b.addRef r) b = .ok b' → b' = b.app [] refs
+  | [], b, b', h => by simp only [List.foldlM, pure] at h; cases h; simp
+  | r :: rs, b, b', h => by
+    simp only [List.foldlM] at h
+    obtain ⟨b1, hb1, h2⟩ := bind_ok_inv h
+    have h1 := Builder.addRef_ok hb1
+    have h3 := foldl_addRef_ok rs b1 b' h2
+    rw [h3, h1, Builder.app_app]; simp
+
+/-- what the domain of a non-empty dictionary value and C05's round trip give: the tree the encoder builds decodes
+back to the same entries, and the entries to the same value -/
+theorem dict_core (h : Inv env f) (k t : Ty) (n : Nat) (hwk : wfb env k = true) (hwt : wfb env t = true)
+    (v : Val) (ks vs : List Val) (hp : dictParts v = some (ks, vs))
+    (hd : dictDom (some n) (fun x => inDom env f k x) (fun x => inDom env f t x)
+      (fun x => encode env f k x Builder.empty) (fun x => encode env f t x Builder.empty) v = true)
+    (hemp : ¬ ks.isEmpty = true) (kbits : List Hashmap.Key)
+    (hkb' : mapMOutcome (fun kv => (encode env f k kv Builder.empty).bind fun kb => .ok kb.bits) ks = .ok kbits)
+    (kvs : List (Hashmap.Key × Val)) (hz : zipKV kbits vs = some kvs) :
+    ∃ root, Hashmap.marshal (valueCodecEnc (fun x => encode env f t x Builder.empty)) n kvs = .ok root ∧
+      root.ty = 0 ∧ Hashmap.unmarshal (valueCodecDec (fun vs => decode env f t vs)) n root = .ok kvs ∧
+      mapMOutcome (fun (kv : Hashmap.Key × Val) =>
+        (decode env f k { bits := kv.1 }).bind fun r => .ok r.1) kvs = .ok ks ∧
+      dictVal ks (kvs.map (·.2)) = v := by
+  simp only [dictDom, hp] at hd
+  simp only [Bool.and_eq_true, beq_iff_eq, List.all_eq_true] at hd
+  obtain ⟨⟨⟨⟨⟨⟨hlen, hshape⟩, hkd⟩, hvd⟩, hkr⟩, hkb⟩, hvfit⟩ := hd
+  rw [hkb'] at hkb
+  simp only [Bool.and_eq_true, List.all_eq_true, beq_iff_eq] at hkb
+  have hklen : kbits.length = vs.length := by rw [mapM_length _ _ _ hkb']; exact hlen
+  obtain ⟨hk1, hk2⟩ := zipKV_spec kbits vs kvs hklen hz
+  -- every value round-trips through a fresh cell
+  have hval : ∀ x ∈ vs, ∃ vb, encode env f t x Builder.empty = .ok vb ∧
+      vb.bits.length + n + 9 + Hashmap.minBitsRequired n ≤ 1023 ∧ vb.refs.length ≤ 4 ∧
+      ∃ s', decode env f t { bits := vb.bits, refs := vb.refs } = .ok (x, s') := by
+    intro x hx
+    have hf := hvfit x hx
+    split at hf
+    · rename_i vb hvb
+      simp only [Bool.and_eq_true, decide_eq_true_eq] at hf
+      obtain ⟨xs, rs, hb, hrt⟩ := h.enc t x _ vb hwt (hvd x hx) hvb
+      obtain ⟨s', hs', _⟩ := hrt {} rfl (Or.inr ⟨rfl, rfl, rfl⟩)
+      refine ⟨vb, hvb, hf.1, hf.2, s', ?_⟩
+      rw [empty_prepend] at hs'
+      rw [hb]; simpa [Builder.app, Builder.empty] using hs'
+    · cases hf
+  obtain ⟨root, hm, hty, hu⟩ := Hashmap.dict_roundtrip
+    (valueCodecEnc (fun x => encode env f t x Builder.empty))
+    (valueCodecDec (fun vs => decode env f t vs)) (dictPay env f t) n kvs
+    (by
+      intro hnil; subst hnil
+      simp only [List.map_nil] at hk1
+      rw [← hk1] at hkb'
+      have := mapM_length _ _ _ hkb'
+      cases ks with
+      | nil => simp at hemp
+      | cons _ _ => simp at this)
+    (fun kv hkv => hkb.1 kv.1 (by rw [← hk1]; exact List.mem_map_of_mem hkv))
+    (sorted_of_ascending kvs (by rw [hk1]; exact hkb.2))
+    (by
+      intro kv hkv
+      obtain ⟨vb, hvb, h1, h2, s', hs'⟩ := hval kv.2 (by rw [← hk2]; exact List.mem_map_of_mem hkv)
+      have hp : dictPay env f t kv.2 = (vb.bits, vb.refs) := by simp only [dictPay, hvb]
+      rw [hp]
+      refine ⟨?_, h1, h2, ?_⟩
+      · simp only [valueCodecEnc, hvb, Outcome.bind]
+      · simp only [valueCodecDec, hs', Outcome.bind])
+  refine ⟨root, hm, hty, hu, ?_, ?_⟩
+  · rw [mapM_map (fun (kb : Hashmap.Key) => (decode env f k { bits := kb }).bind fun r => .ok r.1) (·.1) kvs, hk1]
+    refine mapM_inverse _ _ ks kbits ?_ hkb'
+    intro kv hkv kb hkb2
+    obtain ⟨kbld, hkbld, hkb3⟩ := bind_ok_inv hkb2
+    cases hkb3
+    have hr := hkr kv hkv
+    rw [hkbld] at hr
+    simp only [List.isEmpty_iff] at hr
+    obtain ⟨xs, rs, hb, hrt⟩ := h.enc k kv _ kbld hwk (hkd kv hkv) hkbld
+    obtain ⟨s', hs', _⟩ := hrt {} rfl (Or.inr ⟨rfl, rfl, rfl⟩)
+    rw [empty_prepend] at hs'
+    have hxs : kbld.bits = xs := by rw [hb]; simp [Builder.app, Builder.empty]
+    have hrs : rs = [] := by rw [hb] at hr; simpa [Builder.app, Builder.empty] using hr
+    subst hrs
+    rw [hxs, hs']; rfl
+  · rw [hk2]
+    unfold dictParts at hp
+    unfold dictShapeOk at hshape
+    split at hp
+    · cases hp; simp at hemp
+    · cases hp
+      simp only [Bool.and_eq_true, Bool.not_eq_true'] at hshape
+      simp only [dictVal, hshape.2, Bool.false_eq_true, ↓reduceIte, Val.list,
+        list_toList_id _ hshape.1.1, list_toList_id _ hshape.1.2]
+    · cases hp
+
 theorem enc_dictE (h : Inv env f) (k t : Ty) (v : Val) (b b' : Builder) (hw : wfb env (.dictE k t) = true)
     (hd : inDom env (f + 1) (.dictE k t) v = true) (he : encode env (f + 1) (.dictE k t) v b = .ok b') :
     ∃ xs rs, b' = b.app xs rs ∧ RT (decode env (f + 1) (.dictE k t)) (NG env (.dictE k t)) v xs rs := by
@@ -986,18 +1080,18 @@ theorem enc_dictE (h : Inv env f) (k t : Ty) (v : Val) (b b' : Builder) (hw : wf
   simp only [inDom, hn] at hd
   simp only [encode, hn] at he
   cases hp : dictParts v with
-  | none => simp [hp] at hd
+  | none => simp [dictDom, hp] at hd
   | some p =>
     obtain ⟨ks, vs⟩ := p
-    simp only [hp] at hd he
-    simp only [Bool.and_eq_true, beq_iff_eq, List.all_eq_true] at hd
-    obtain ⟨⟨⟨⟨⟨⟨hlen, hshape⟩, hkd⟩, hvd⟩, hkr⟩, hkb⟩, hvfit⟩ := hd
+    simp only [hp] at he
     by_cases hemp : ks.isEmpty = true
     · -- the empty dictionary: hme_empty$0
       rw [if_pos hemp] at he
       simp only [Builder.writeBit] at he
       have hb := Builder.writeBits_ok he
       have hv : v = .nil := by
+        simp only [dictDom, hp, Bool.and_eq_true] at hd
+        have hshape := hd.1.1.1.1.1.2
         unfold dictParts at hp
         unfold dictShapeOk at hshape
         split at hp
@@ -1017,84 +1111,17 @@ theorem enc_dictE (h : Inv env f) (k t : Ty) (v : Val) (b b' : Builder) (hw : wf
       simp only [Builder.writeBit] at hb1
       have hb1 := Builder.writeBits_ok hb1
       obtain ⟨kbits, hkb', he⟩ := bind_ok_inv he
-      rw [hkb'] at hkb
-      simp only [Bool.and_eq_true, List.all_eq_true, beq_iff_eq] at hkb
-      have hklen : kbits.length = vs.length := by rw [mapM_length _ _ _ hkb']; exact hlen
       cases hz : zipKV kbits vs with
       | none => rw [hz] at he; cases he
       | some kvs =>
         rw [hz] at he
-        obtain ⟨hk1, hk2⟩ := zipKV_spec kbits vs kvs hklen hz
-        -- every value round-trips through a fresh cell
-        have hval : ∀ x ∈ vs, ∃ vb, encode env f t x Builder.empty = .ok vb ∧
-            vb.bits.length + n + 9 + Hashmap.minBitsRequired n ≤ 1023 ∧ vb.refs.length ≤ 4 ∧
-            ∃ s', decode env f t { bits := vb.bits, refs := vb.refs } = .ok (x, s') := by
-          intro x hx
-          have hf := hvfit x hx
-          split at hf
-          · rename_i vb hvb
-            simp only [Bool.and_eq_true, decide_eq_true_eq] at hf
-            obtain ⟨xs, rs, hb, hrt⟩ := h.enc t x _ vb hwt (hvd x hx) hvb
-            obtain ⟨s', hs', _⟩ := hrt {} rfl (Or.inr ⟨rfl, rfl⟩)
-            refine ⟨vb, hvb, hf.1, hf.2, s', ?_⟩
-            rw [empty_prepend] at hs'
-            rw [hb]; simpa [Builder.app, Builder.empty] using hs'
-          · cases hf
-        obtain ⟨root, hm, hty, hu⟩ := Hashmap.dict_roundtrip
-          (valueCodecEnc (fun x => encode env f t x Builder.empty))
-          (valueCodecDec (fun vs => decode env f t vs)) (dictPay env f t) n kvs
-          (by
-            intro hnil; subst hnil
-            simp only [List.map_nil] at hk1
-            rw [← hk1] at hkb'
-            have := mapM_length _ _ _ hkb'
-            cases ks with
-            | nil => simp at hemp
-            | cons _ _ => simp at this)
-          (fun kv hkv => hkb.1 kv.1 (by rw [← hk1]; exact List.mem_map_of_mem hkv))
-          (sorted_of_ascending kvs (by rw [hk1]; exact hkb.2))
-          (by
-            intro kv hkv
-            obtain ⟨vb, hvb, h1, h2, s', hs'⟩ := hval kv.2 (by rw [← hk2]; exact List.mem_map_of_mem hkv)
-            have hp : dictPay env f t kv.2 = (vb.bits, vb.refs) := by simp only [dictPay, hvb]
-            rw [hp]
-            refine ⟨?_, h1, h2, ?_⟩
-            · simp only [valueCodecEnc, hvb, Outcome.bind]
-            · simp only [valueCodecDec, hs', Outcome.bind])
+        obtain ⟨root, hm, hty, hu, hkeys, hv⟩ := dict_core h k t n hwk hwt v ks vs hp hd hemp kbits hkb' kvs hz
         simp only [hm] at he
         have hb' := Builder.addRef_ok he
         subst hb1
         refine ⟨[true], [root], ?_, RTs.toRT ?_ _⟩
         · rw [hb']; simp [Builder.app]
         · intro s hs
-          have hkeys : mapMOutcome (fun (kv : Hashmap.Key × Val) =>
-              (decode env f k { bits := kv.1 }).bind fun r => .ok r.1) kvs = .ok ks := by
-            rw [mapM_map (fun (kb : Hashmap.Key) => (decode env f k { bits := kb }).bind fun r => .ok r.1) (·.1) kvs, hk1]
-            refine mapM_inverse _ _ ks kbits ?_ hkb'
-            intro kv hkv kb hkb2
-            obtain ⟨kbld, hkbld, hkb3⟩ := bind_ok_inv hkb2
-            cases hkb3
-            have hr := hkr kv hkv
-            rw [hkbld] at hr
-            simp only [List.isEmpty_iff] at hr
-            obtain ⟨xs, rs, hb, hrt⟩ := h.enc k kv _ kbld hwk (hkd kv hkv) hkbld
-            obtain ⟨s', hs', _⟩ := hrt {} rfl (Or.inr ⟨rfl, rfl⟩)
-            rw [empty_prepend] at hs'
-            have hxs : kbld.bits = xs := by rw [hb]; simp [Builder.app, Builder.empty]
-            have hrs : rs = [] := by rw [hb] at hr; simpa [Builder.app, Builder.empty] using hr
-            subst hrs
-            rw [hxs, hs']; rfl
-          have hv : dictVal ks (kvs.map (·.2)) = v := by
-            rw [hk2]
-            unfold dictParts at hp
-            unfold dictShapeOk at hshape
-            split at hp
-            · cases hp; simp at hemp
-            · cases hp
-              simp only [Bool.and_eq_true, Bool.not_eq_true'] at hshape
-              simp only [dictVal, hshape.2, Bool.false_eq_true, ↓reduceIte, Val.list,
-                list_toList_id _ hshape.1.1, list_toList_id _ hshape.1.2]
-            · cases hp
           have h1 := Slice.readBit_prepend s true [] [root]
           have h2 := Slice.nextRef_prepend s [] root []
           have h3 : (Slice.ofCell root).isPruned = false := by
@@ -1102,6 +1129,78 @@ theorem enc_dictE (h : Inv env f) (k t : Ty) (v : Val) (b b' : Builder) (hw : wf
           simp only [Outcome.bind] at hkeys
           simp only [decode, Slice.prepend_isLibrary, hs, Bool.false_eq_true, ↓reduceIte, h1, h2, h3, hn, hu,
             bind, Outcome.bind, pure, Slice.prepend_nil, Bool.not_true, hkeys, hv]
+
+/-- `Hashmap` written into the current cell: the chunk is the content of the root of C05's tree -/
+theorem enc_dict (h : Inv env f) (k t : Ty) (v : Val) (b b' : Builder) (hw : wfb env (.dict k t) = true)
+    (hd : inDom env (f + 1) (.dict k t) v = true) (he : encode env (f + 1) (.dict k t) v b = .ok b') :
+    ∃ xs rs, b' = b.app xs rs ∧ RT (decode env (f + 1) (.dict k t)) (NG env (.dict k t)) v xs rs := by
+  simp only [wfb, Bool.and_eq_true, Option.isSome_iff_exists] at hw
+  obtain ⟨⟨⟨n, hn⟩, hwk⟩, hwt⟩ := hw
+  simp only [inDom, hn, Bool.and_eq_true, Bool.not_eq_true'] at hd
+  obtain ⟨hd, hnil⟩ := hd
+  simp only [encode, hn] at he
+  cases hp : dictParts v with
+  | none => simp [dictDom, hp] at hd
+  | some p =>
+    obtain ⟨ks, vs⟩ := p
+    simp only [hp] at he
+    have hshape : dictShapeOk v = true ∧ ks.length = vs.length := by
+      simp only [dictDom, hp, Bool.and_eq_true, beq_iff_eq] at hd
+      exact ⟨hd.1.1.1.1.1.2, hd.1.1.1.1.1.1⟩
+    have hemp : ¬ ks.isEmpty = true := by
+      have hs := hshape.1
+      unfold dictParts at hp
+      unfold dictShapeOk at hs
+      split at hp
+      · simp [Val.isNil] at hnil
+      · cases hp
+        simp only [Bool.and_eq_true, Bool.not_eq_true'] at hs
+        simp [hs.2]
+      · cases hp
+    have hvemp : vs.isEmpty = false := by
+      cases vs with
+      | nil =>
+        cases ks with
+        | nil => simp at hemp
+        | cons _ _ => simp at hshape
+      | cons _ _ => rfl
+    rw [hvemp] at he
+    simp only [Bool.false_eq_true, ↓reduceIte] at he
+    obtain ⟨kbits, hkb', he⟩ := bind_ok_inv he
+    cases hz : zipKV kbits vs with
+    | none => rw [hz] at he; cases he
+    | some kvs =>
+      rw [hz] at he
+      obtain ⟨root, hm, hty, hu, hkeys, hv⟩ := dict_core h k t n hwk hwt v ks vs hp hd hemp kbits hkb' kvs hz
+      simp only [hm] at he
+      obtain ⟨root', hroot, he⟩ := bind_ok_inv he
+      cases hroot
+      obtain ⟨b1, hb1, he⟩ := bind_ok_inv he
+      have e1 := Builder.writeBits_ok hb1
+      have e2 := foldl_addRef_ok _ _ _ he
+      refine ⟨root.bits, root.refs, by rw [e2, e1, Builder.app_app]; simp, ?_⟩
+      intro s hs hc
+      rcases hc with hng | ⟨hb0, hr0, hpr⟩
+      · obtain ⟨g, hg⟩ := hng
+        cases g <;> simp [greedyb] at hg
+      · refine ⟨dictRest n (fun vs => decode env f t vs) (s.prepend root.bits root.refs), ?_, fun hng => ?_⟩
+        · have hpr' : (s.prepend root.bits root.refs).isPruned = false := by
+            simpa [Slice.prepend, Slice.isPruned] using hpr
+          have hcell : Hashmap.unmarshal (valueCodecDec (fun vs => decode env f t vs)) n
+              (s.prepend root.bits root.refs).toCell = .ok kvs := by
+            rw [← hu]
+            obtain ⟨ty, mask, bits, refs⟩ := root
+            simp only [Slice.prepend, Slice.toCell, hb0, hr0, List.append_nil, Cell.bits, Cell.refs]
+            have hty' : ty = 0 := hty
+            subst hty'
+            exact Hashmap.unmarshal_root_irrel _ n _ _ _ _ bits refs
+              (by simpa [Slice.isPruned] using hpr) (by simpa [Slice.isLibrary] using hs) (by decide) (by decide)
+          simp only [Outcome.bind] at hkeys
+          simp only [decode, Slice.prepend_isLibrary, hs, Bool.false_eq_true, ↓reduceIte, hpr', hn, hcell,
+            bind, Outcome.bind, pure, hkeys, hv]
+        · obtain ⟨g, hg⟩ := hng
+          cases g <;> simp [greedyb] at hg
+
 
 theorem Inv.succ (hEnv : EnvWF env) (hp : ∀ p, p.proved = true → PrimOK p) (h : Inv env f) : Inv env (f + 1) := by
   refine ⟨?_, ?_, ?_⟩
@@ -1124,6 +1223,7 @@ theorem Inv.succ (hEnv : EnvWF env) (hp : ∀ p, p.proved = true → PrimOK p) (
     | prim p => exact enc_prim hp p v b b' hw hd he
     | vmStack e => simp [wfb] at hw
     | dictE k t => exact enc_dictE h k t v b b' hw hd he
+    | dict k t => exact enc_dict h k t v b b' hw hd he
     | encErr id => simp [encode] at he
     | «opaque» id => simp [wfb] at hw
   · intro n ft T rest v b b' hw hd he
